@@ -225,6 +225,7 @@ type clientEngine struct {
 	closerSpawned bool
 	advanced      time.Duration
 	kcSeen        bool
+	kcDoubleRelease bool // a stale owner of an overlapped transaction took an error path after someone else completed it: it releases the pooled object a second time
 }
 
 const (
@@ -360,6 +361,9 @@ func (a *wrapAgent) Start(id [stun.TransactionIDSize]byte, deadline time.Time) e
 				e.stats["fault_agent_reregistration_error"]++
 				if tx := e.byID[id]; tx != nil {
 					tx.agentStartFailed = true
+					if tx.kc && tx.ended() {
+						e.kcDoubleRelease = true
+					}
 				}
 				return errInjAgentStart
 			}
@@ -541,6 +545,9 @@ func (c *simConn) Write(b []byte) (int, error) {
 	if e.armedWriteFail > 0 {
 		e.armedWriteFail--
 		e.stats["fault_write_error"]++
+		if tx != nil && tx.kc && w.trigger != nil && tx.ended() {
+			e.kcDoubleRelease = true
+		}
 		if tx != nil {
 			tx.writeFailed = true
 			tx.writes[len(tx.writes)-1].ok = false
@@ -1013,7 +1020,10 @@ func (e *clientEngine) txHandler(tx *cTx) stun.Handler {
 			tx.doCbDone = true
 		}
 		// re-entrancy: a handler may start a new transaction (e.g. a retry)
-		if e.reentPct > 0 && e.reentered < 6 && e.viol == nil && e.r.Pct(e.reentPct, "handler-reenters") {
+		// (only once the transaction's own Start call is past its write: a
+		// handler that runs while Start may still roll back is the K-c / K-d
+		// territory and is judged when Start returns)
+		if e.reentPct > 0 && e.reentered < 6 && e.viol == nil && (tx.firstWriteOK || (tx.returned && tx.ret == nil)) && e.r.Pct(e.reentPct, "handler-reenters") {
 			e.reentered++
 			e.stats["probe_handler_reentered_client"]++
 			if tk := e.r.Sim.Cur(); tk != nil {
@@ -1935,6 +1945,12 @@ func (e *clientEngine) MatchKnown(sig string, v *Violation) bool {
 		// panics, the pooled transaction object / the callback itself).
 		if !e.kcSeen {
 			return false
+		}
+		if e.r.Sim.PoolStats.DoublePut > 0 || e.kcDoubleRelease {
+			// an overlap made two goroutines release the same pooled transaction
+			// object (each believes it owns it): from here on two unrelated
+			// transactions may share one object and anything can follow
+			return true
 		}
 		explained := map[string]bool{
 			"inflight-to-fallback": true, "response-not-delivered": true, "wrong-transaction": true, // the response meets an unregistered / recycled transaction
